@@ -171,10 +171,10 @@ impl Oracle {
                 let (c, n) = (s(op, "c"), s(op, "n"));
                 let expiry = match io(op, "e") { None => None, Some(ms) => Some(now + ms as i128) };
                 if let Some(e) = expiry {
-                    // beyond what the backend can represent the property does not say what happens
-                    if e.div_euclid(1000) > MAX_DATETIME_S || e < 0 { return None; }
+                    // outside chrono's range the call may fail (the property does not say how)
+                    if e > 8_210_298_412_799_999 || e < -8_334_632_851_200_000 { return None; }
                 }
-                let rec = Rec { kind: k, cat: c.clone(), name: n.clone(), value: hex::decode(s(op, "v")).unwrap_or_default(),
+                let rec = Rec { kind: k, cat: c.clone(), name: n.clone(), value: value_from_json(&op["v"]),
                                 tags: tags_from_json(&op["t"]).unwrap_or_default() };
                 let pos = find(p, &c, &n);
                 if name == "insert" {
@@ -266,10 +266,18 @@ pub fn provision(file: bool, profile: &str, params: &str, tag: &str) -> (AnyBack
     } else {
         (format!("sqlite://:memory:{}{}", if params.is_empty() { "" } else { "?" }, params), None)
     };
-    let backend = block_on(async {
-        uri.as_str().provision_backend(StoreKeyMethod::RawKey, PassKey::from(RAW_KEY), Some(profile.to_string()), true).await
-    }).expect("provision");
-    (backend, path)
+    // Creating a fresh WAL-mode file can fail with SQLITE_BUSY while the pool's first connections
+    // race on the journal-mode switch (seen ~1 in 1000 under 16 threads): retry, this is set-up, not the property.
+    let mut last = None;
+    for attempt in 0..20 {
+        match block_on(async {
+            uri.as_str().provision_backend(StoreKeyMethod::RawKey, PassKey::from(RAW_KEY), Some(profile.to_string()), true).await
+        }) {
+            Ok(b) => return (b, path),
+            Err(e) => { last = Some(e); std::thread::sleep(std::time::Duration::from_millis(20 * (attempt + 1))); }
+        }
+    }
+    panic!("provision: {:?}", last)
 }
 
 pub fn cleanup(path: &Option<String>) {
@@ -353,7 +361,7 @@ impl StoreRun {
                 match name.as_str() {
                     "ping" => match sess.ping().await { Ok(()) => json!("ok"), Err(e) => jerr(&e) },
                     "insert" | "replace" => {
-                        let v = hex::decode(s(op, "v")).unwrap_or_default();
+                        let v = value_from_json(&op["v"]);
                         let tags = entry_tags(&op["t"]);
                         let opn = if name == "insert" { EntryOperation::Insert } else { EntryOperation::Replace };
                         match sess.update(k, opn, &s(op, "c"), &s(op, "n"), Some(&v), tags.as_deref(), io(op, "e")).await {
@@ -400,7 +408,7 @@ fn signature(op: &Value, expected: &Value, got: &Value, ctx: &str) -> String {
         if let Some(e) = v.get("err") { format!("err:{}", e.as_str().unwrap_or("?")) }
         else if v.is_null() { "none".into() }
         else if v == "ok" { "ok".into() }
-        else if v.get("n").is_some() { "count".into() }
+        else if v.as_object().map_or(false, |o| o.len() == 1) && v.get("n").map_or(false, |n| n.is_number()) { "count".into() }
         else { "data".into() }
     };
     format!("{}:{}->{}{}", s(op, "op"), short(expected), short(got), if ctx.is_empty() { String::new() } else { format!(":{}", ctx) })
@@ -449,6 +457,12 @@ pub fn exec(case: &Value, tag: &str) -> Value {
 fn oracle_ctx(o: &Oracle, op: &Value) -> String {
     let sid = op["s"].as_u64().unwrap_or(0);
     let mut ctx = vec![];
+    if s(op, "op") == "scan" {
+        let pname = so(op, "profile").unwrap_or(o.active.clone());
+        if let Some(p) = o.profiles.get(&pname) {
+            if p.recs.iter().any(|r| r.expiry.map_or(false, |e| e.div_euclid(1000) > MAX_DATETIME_S)) { ctx.push("beyond-y9999-present"); }
+        }
+    }
     if let Some(ss) = o.sessions.get(&sid) {
         let pname = ss.profile.clone().unwrap_or(ss.want.clone());
         if let Some(p) = o.profiles.get(&pname) {
@@ -456,6 +470,9 @@ fn oracle_ctx(o: &Oracle, op: &Value) -> String {
             let (c, n) = (s(op, "c"), s(op, "n"));
             if p.recs.iter().any(|r| r.rec.kind == k && r.rec.cat == c && r.rec.name == n && !live(o.now, r)) { ctx.push("expired-shadow"); }
             if s(op, "op") == "remove_all" && p.recs.iter().any(|r| !live(o.now, r)) { ctx.push("expired-present"); }
+            let beyond = |r: &RefRec| r.expiry.map_or(false, |e| e.div_euclid(1000) > MAX_DATETIME_S);
+            if p.recs.iter().any(|r| r.rec.kind == k && r.rec.cat == c && r.rec.name == n && beyond(r)) { ctx.push("beyond-y9999"); }
+            if matches!(s(op, "op").as_str(), "count" | "fetch_all" | "remove_all") && p.recs.iter().any(|r| beyond(r)) { ctx.push("beyond-y9999-present"); }
         } else if ss.resolved || !o.profiles.contains_key(&pname) {
             ctx.push("profile-gone");
         }
